@@ -788,6 +788,10 @@ def gc_state(st, pins=()):
 def join_states(ctx, a, b, tag, widen=False, thresholds=()):
     rel_thresholds = sorted(set(t for t in thresholds if abs(t) <= 4096) | set(-t for t in thresholds if abs(t) <= 4096))
     """join of two states at program point `tag`; vids that differ get deterministic names"""
+    jf = getattr(ctx, "joined_fids", None)
+    if jf is None:
+        jf = ctx.joined_fids = set()
+    jf.add(tag[1] if tag[0] == "ret" else tag[0])
     out = St()
     out.part = a.part
     pair = {}      # (va, vb) -> target vid
